@@ -91,10 +91,11 @@ func RunOpPark(lg *rec.Log, sc OpScenario, seed int64, pk *rec.Parker) []rec.Ev 
 	lg.Add(rec.Ev{E: "hdr", S: "subj", B: true, I: sc.K})
 	base := context.WithValue(context.Background(), logKey{}, lg)
 	base = context.WithValue(base, rec.KeySub, true)
-	var inflight [4]int32 // emissions in flight per source
-	var emSeq [4]int64    // emissions started per source
-	var tdRunning int32   // source teardowns in progress (they may run on goroutines of the library)
-	var prodGid [4]uint64 // goroutine of the producer of each source
+	var inflight [4]int32   // emissions in flight per source
+	var emSeq [4]int64      // emissions started per source
+	var tdRunning int32     // source teardowns in progress (they may run on goroutines of the library)
+	var tdDone, ended int32 // source teardowns finished; the observer got its terminal or was unsubscribed
+	var prodGid [4]uint64   // goroutine of the producer of each source
 	isSubj := len(sc.Head) > 8 && sc.Head[:8] == "subject:"
 	isCtx := len(sc.Head) > 4 && sc.Head[:4] == "ctx:"
 	var cancelSub context.CancelFunc
@@ -136,6 +137,7 @@ func RunOpPark(lg *rec.Log, sc OpScenario, seed int64, pk *rec.Parker) []rec.Ev 
 					}
 				}
 				lg.Add(rec.Ev{E: "srcTd", I: i})
+				atomic.AddInt32(&tdDone, 1)
 			}
 			ctls = append(ctls, c)
 			srcs[i] = c.Observable("ctl-unsafe", nil) // every individual source is sequential: the unsafe constructor is legitimate
@@ -168,17 +170,21 @@ func RunOpPark(lg *rec.Log, sc OpScenario, seed int64, pk *rec.Parker) []rec.Ev 
 			lg.Add(rec.Ev{E: "cbB", O: 0, P: rec.PofCtx(ctx), K: "E", V: 0, I: rec.CallOfCtx(ctx)})
 			rec.Slow(slow)
 			lg.Add(rec.Ev{E: "cbE", O: 0, K: "E"})
+			atomic.StoreInt32(&ended, 1)
 		},
 		func(ctx context.Context) {
 			lg.Add(rec.Ev{E: "cbB", O: 0, P: rec.PofCtx(ctx), K: "C", V: 0, I: rec.CallOfCtx(ctx)})
 			rec.Slow(slow)
 			lg.Add(rec.Ev{E: "cbE", O: 0, K: "C"})
+			atomic.StoreInt32(&ended, 1)
 		},
 	)
 	sub := o.SubscribeWithContext(base, obs)
+	nSrcSub := int32(0)
 	for i := range ctls {
 		if ctls[i].Dest(0) != nil {
 			lg.Add(rec.Ev{E: "srcSub", I: i})
+			nSrcSub++
 		}
 	}
 	var wg, wgOthers sync.WaitGroup
@@ -288,6 +294,7 @@ func RunOpPark(lg *rec.Log, sc OpScenario, seed int64, pk *rec.Parker) []rec.Ev 
 			lg.Add(rec.Ev{E: "unsubB", O: 0, P: 8})
 			sub.Unsubscribe()
 			lg.Add(rec.Ev{E: "unsubE", O: 0, P: 8})
+			atomic.StoreInt32(&ended, 1)
 		}()
 	}
 	close(start)
@@ -309,6 +316,11 @@ func RunOpPark(lg *rec.Log, sc OpScenario, seed int64, pk *rec.Parker) []rec.Ev 
 	}
 	wg.Wait()
 	for k := 0; k < 140000 && atomic.LoadInt32(&tdRunning) != 0; k++ { // a teardown still running on a goroutine of the library (e.g. a context watcher)
+		time.Sleep(50 * time.Microsecond)
+	}
+	// the terminal may have been delivered by a goroutine of the library (ThrowOnContextCancel's context watcher) that releases the source only after the
+	// callback returned: "released" is judged once that goroutine had the time to do it (3 s), never in the middle of its run
+	for k := 0; k < 60000 && atomic.LoadInt32(&ended) != 0 && atomic.LoadInt32(&tdDone) < nSrcSub; k++ {
 		time.Sleep(50 * time.Microsecond)
 	}
 	lg.Add(rec.Ev{E: "quiesce"})
